@@ -242,6 +242,13 @@ pub fn install() {
     bpaf::__verif::install(Box::new(Delegate));
 }
 
+/// `std::process::exit` as called by harness code that plays the program's `main`: recorded,
+/// then an unwind - like the shadowed exit inside bpaf
+pub fn exit(code: i32) -> ! {
+    with(|s| s.exit = Some(code));
+    std::panic::resume_unwind(Box::new(bpaf::__verif::SimExit(code)))
+}
+
 /// what a user value's destructor prints: goes to the simulated stdout like any `println!`, but
 /// only during a launch and only while the simulated process is alive (a real process that
 /// calls `exit` runs no destructors; the simulated exit is an unwind, which does)
